@@ -28,7 +28,7 @@ func init() {
 		rng := rand.New(rand.NewSource(seed*3571 + 3))
 		reps := 6
 		if tier == "thorough" {
-			reps = 120
+			reps = 300
 		}
 		for r := 0; r < reps; r++ {
 			for _, kind := range disturberKinds {
